@@ -25,10 +25,10 @@ CHECKS["C01"] = dict(
          "by TLC against the declarative FindSpec of FindProps.tla for all populations/queries of the bound and per layout; "
          "the precondition's necessity is shown by an expected counterexample. FindSpec is then the oracle for replaying "
          "TLC-enumerated populations x every period/filter/exclusion on real directory trees under 5 calendar embeddings x "
-         "11 layouts x name styles, and recorded random sessions (find, bundles, `in`, len) are validated by FindTrace.tla.",
+         "16 layouts x name styles (full / partial / no end fields, with and without user placeholders) on the local file system and inside a zip archive (fsspec), and recorded random sessions (find, bundles, `in`, len) are validated by FindTrace.tla.",
     ref="DESIGN.md §5 C01",
     note="Trusted: TLC, FindProps (~100 lines), the tick->datetime embedding and path->id projection of the harness. Bounds: "
-         "<=3-4 files on 10-12 ticks exhaustively/sampled, random sessions up to 14 files on 16 ticks. Zip/remote file "
+         "<=3-4 files on 10-12 ticks exhaustively/sampled, random sessions up to 14 files on 16 ticks. Remote file "
          "systems and user regexes beyond fixed tag values are not exercised; frequency bundles only with sort=True.",
     technique="TLA+ spec (FindProps/FindDesign) model-checked with TLC; TLC-generated cases replayed into typhon.files.FileSet; "
               "recorded traces validated by TLC (FindTrace)")
